@@ -68,7 +68,7 @@ static T *NAME (unsigned int n) \
   __CPROVER_assume (cap >= n && size <= cap && cap <= CFG_ALLOC_MAX_BOUND); \
   REPLAY_SMALL_CAP (cap) \
   SZ (s) = size; CAP (s) = cap; AID (s) = nondet_int (); \
-  if (cap == n) \
+  if (cap == n && !CONSTEVAL) \
     DATA (s) = STORAGE (s); \
   else \
     { \
